@@ -320,8 +320,12 @@ impl Check for Fungible {
                     Step::Tx { op: Op::BurnFrom { spender, from, amt: amount(rng, &m, from, a) }, signer: Signer::Honest }
                 }
                 5 => {
-                    let owner = holder(rng, &m);
-                    let spender = any(rng);
+                    // a fifth of the approvals replace a live allowance: same owner and spender, often the very same amount,
+                    // with another (usually earlier) deadline — the new deadline must be the one that counts
+                    let livep: Vec<(usize, usize)> = m.allow.iter().filter(|(_, v)| v.0 > 0 && v.1 >= m.now).map(|(k, _)| *k).collect();
+                    let re = if !livep.is_empty() && rng.chance(20) { Some(*rng.pick(&livep)) } else { None };
+                    let owner = re.map(|x| x.0).unwrap_or_else(|| holder(rng, &m));
+                    let spender = re.map(|x| x.1).unwrap_or_else(|| any(rng));
                     let live = match rng.below(12) {
                         0 => Deadline::Rel(-(1 + rng.below(5) as i64)),
                         1 => Deadline::Rel(0),
@@ -331,10 +335,12 @@ impl Check for Fungible {
                         _ => Deadline::Rel(1 + rng.below(60) as i64),
                     };
                     let amt = match rng.below(6) {
+                        _ if re.is_some() && rng.chance(60) => m.allowance(owner, spender),
                         0 => 0,
                         1 => amount(rng, &m, owner, 0),
                         _ => 1 + rng.below(2_000_000) as i128,
                     };
+                    let live = if re.is_some() && rng.chance(50) { Deadline::Rel(rng.below(4) as i64) } else { live };
                     Step::Tx { op: Op::Approve { owner, spender, amt, live }, signer: Signer::Honest }
                 }
                 _ => {
